@@ -76,6 +76,24 @@ def engine_replay(payload):
 ENGINE_MODULES = ['PP.Model.Doc', 'PP.Model.Normalize', 'PP.Model.Layout', 'PP.Model.Render', 'PP.Spec.Lay',
                   'PP.Proofs.LayNormalize', 'PP.Proofs.Sound']
 
+def oracle_sec(which):
+    def run(tier, seed, rep):
+        import sec_engine
+        import findings
+        stats, fails = sec_engine.oracle_section(tier, seed, which)
+        known = common.load_findings()
+        real = []
+        n_known = 0
+        for f in fails:
+            if findings.match_known(rep.prop, f, known) is None:
+                real.append(f)
+            else:
+                n_known += 1
+        stats['failures_in_known_class'] = n_known
+        return stats, [], real[:3]
+    return run
+
+
 REGISTRY = {
     'C04': {
         'theorems': ['PP.C04.sound', 'PP.C04.sound_plain', 'PP.C04.ann_balanced', 'PP.C04.render_trim',
@@ -86,5 +104,23 @@ REGISTRY = {
         'rule': 'engine correspondence: exhaustive small documents x widths x ribbon fractions x strategies, plus seeded random documents',
         'assumptions': ['ribbon_frac values are restricted to those on which CPython\'s float product agrees with exact rational arithmetic (counted in the evidence)',
                         'lazy normalisation of FlatChoice is modelled as a pure function (DESIGN section 4/M1); the enumeration includes flat alternatives containing always_break and shared sub-documents'],
+    },
+    'C05': {
+        'theorems': ['PP.C05.rest_of_line', 'PP.C05.flat_iff_fits', 'PP.sim', 'PP.fitsE_mono', 'PP.fitsFast_eq_fitsE', 'PP.smart_imp_fast'],
+        'modules': ENGINE_MODULES + ['PP.Proofs.FitsE', 'PP.Proofs.Sim', 'PP.Props.C05'],
+        'sections': [{'name': 'engine-classic', 'run': engine_section(classic=True)},
+                     {'name': 'flat-overflow-oracle', 'run': oracle_sec('C05')}],
+        'replay': engine_replay,
+        'rule': 'classic-algebra engine correspondence + the flat-group overflow oracle evaluated on the implementation (group decisions recorded by passing a recording fitting predicate to best_layout)',
+        'assumptions': ['theorem rest_of_line covers text, concat, nest, group, line, softline, hardline, always_break, annotate; align is covered by the correspondence and the oracle only (named in DESIGN.md)'],
+    },
+    'C06': {
+        'theorems': ['PP.C06.fits_iff_spec', 'PP.C06.broken_only_if', 'PP.C06.flat_only_if', 'PP.fitsE_iff_scan'],
+        'modules': ENGINE_MODULES + ['PP.Proofs.FitsE', 'PP.Proofs.Scan', 'PP.Props.C06'],
+        'sections': [{'name': 'engine-classic', 'run': engine_section(classic=True)},
+                     {'name': 'one-line-stable-oracle', 'run': oracle_sec('C06')}],
+        'replay': engine_replay,
+        'rule': 'classic-algebra engine correspondence + the one-line-stability oracle evaluated on the implementation',
+        'assumptions': ['the smart strategy\'s extra reason (a following deeper line overflowing) is stated but not characterised denotationally'],
     },
 }
